@@ -52,15 +52,30 @@ Proof.
     apply H in E. apply reg_registered in E. vm_compute in E. clear - E. discriminate E.
 Qed.
 
-(* top-level module a, then top-level package a *)
+(* top-level module a, then top-level package a -- on the code BEFORE the repairs 3d2c96f + f6d4b31
+   (Registry.add_unprocessed_module_old / step_old): the replaced module stays in rootobjects, unregistered.
+   With the repaired code the same history is guarded and satisfies Inv. *)
 Definition ops_dup_root : list op := [AddModule false a_ None; AddModule true a_ None].
-Lemma dup_root_witness :
-  raised ops_dup_root = None /\ In 0 (roots (final ops_dup_root)) /\ registered (final ops_dup_root) 0 = false /\
-  ~ Inv (final ops_dup_root).
+Fixpoint run_old (s : state) (ops : list op) : option state :=
+  match ops with
+  | [] => Some s
+  | o :: t => match step_old s o with Some s1 => run_old s1 t | None => None end
+  end.
+Definition final_old (ops : list op) : state := match run_old init ops with Some s => s | None => init end.
+Lemma dup_root_old_witness :
+  run_old init ops_dup_root = Some (final_old ops_dup_root) /\ In 0 (roots (final_old ops_dup_root)) /\
+  registered (final_old ops_dup_root) 0 = false /\ ~ Inv (final_old ops_dup_root).
 Proof.
   split; [vm_compute; reflexivity|]. split; [vm_compute; left; reflexivity|]. split; [vm_compute; reflexivity|].
   intros HI. destruct (inv_roots _ HI 0) as [H _]; [vm_compute; left; reflexivity|].
   apply reg_registered in H. vm_compute in H. clear - H. discriminate H.
+Qed.
+Lemma dup_root_repaired : run_ops init ops_dup_root 0 true = (final ops_dup_root, None, true) /\ Inv (final ops_dup_root) /\
+                          roots (final ops_dup_root) = [1].
+Proof.
+  assert (H : run_ops init ops_dup_root 0 true = (final ops_dup_root, None, true)) by (vm_compute; reflexivity).
+  split; [exact H|]. split; [|vm_compute; reflexivity].
+  exact (proj2 (run_ops_guarded_total ops_dup_root init 0 (final ops_dup_root) None inv_init H)).
 Qed.
 
 (* package a with module a.b; module c; a.b re-exported into c *)
@@ -105,10 +120,14 @@ Proof.
   split; [apply final_guarded_inv; vm_compute; reflexivity|]. split; [vm_compute; reflexivity|].
   split; [vm_compute; reflexivity | exact (proj2 (proj2 reparent_collision_witness))].
 Qed.
-Lemma dup_root_step : breaks (removelast ops_dup_root) (AddModule true a_ None).
+(* the old step from the Inv state after [AddModule a]: completes, and the result violates Inv *)
+Lemma dup_root_old_step :
+  Inv (final (removelast ops_dup_root)) /\
+  step_old (final (removelast ops_dup_root)) (AddModule true a_ None) = Some (final_old ops_dup_root) /\
+  ~ Inv (final_old ops_dup_root).
 Proof.
-  split; [apply final_guarded_inv; vm_compute; reflexivity|]. split; [vm_compute; reflexivity|].
-  split; [vm_compute; reflexivity | exact (proj2 (proj2 (proj2 dup_root_witness)))].
+  split; [apply final_guarded_inv; vm_compute; reflexivity|].
+  split; [vm_compute; reflexivity | exact (proj2 (proj2 (proj2 dup_root_old_witness)))].
 Qed.
 Lemma module_reexport_step : breaks (removelast ops_module_reexport) (Reparent 1 2 b_).
 Proof.
